@@ -98,8 +98,16 @@ def write_notation(plain, variant, k=0):
 # ---------------------------------------------------------------------------------------------------
 # databases
 # ---------------------------------------------------------------------------------------------------
+# accession naming schemes: plain "T1".. and names spelled only with letters of the decoy prefix (gene-symbol like)
+SCHEME = ["T"]
+PREFIX_LETTER_NAMES = ["cyc1", "ded1", "dcd2", "ode3"]
+
+
 def core_entries(targets):
-    ent = [(f"T{i + 1}", tuple(t)) for i, t in enumerate(targets)]
+    if SCHEME[0] == "prefix":
+        ent = [(PREFIX_LETTER_NAMES[i], tuple(t)) for i, t in enumerate(targets)]
+    else:
+        ent = [(f"T{i + 1}", tuple(t)) for i, t in enumerate(targets)]
     ent += [(PREFIX + n, tuple(x + 4 for x in t)) for n, t in ent]
     return ent
 
@@ -377,6 +385,7 @@ def check_case(case, acc):
     """Stand-alone: rebuild the database in the recorded entry order and run the one table."""
     sc = scratch()
     work = sc.sub()
+    SCHEME[0] = case.get("names", "T")
     try:
         targets = [tuple(t) for t in case["targets"]]
         core = dict(core_entries(targets))
@@ -423,6 +432,9 @@ def plan(quick):
                 else:
                     e_rmax = 3 if (t <= 2 and nu <= 2) else 2 if t <= 2 else 1
                 add(db, few, "e2e", nslices=max(1, count(e_rmax) * 2 // 25), rmax=e_rmax, rmax2=2)
+            # accessions spelled with letters of the decoy prefix ("cyc1", "ded1", ...)
+            if t >= 2:
+                add(db, few, "direct", rmax=2 if quick else 3, rmax2=1, names="prefix")
     return items
 
 
@@ -430,6 +442,7 @@ def worker(item):
     acc = Acc()
     sc = scratch()
     work = sc.sub()
+    SCHEME[0] = item.get("names", "T")
     try:
         targets = [tuple(t) for t in item["targets"]]
         family = item["family"]
@@ -464,6 +477,8 @@ def worker(item):
                         continue
                     case = dict(targets=item["targets"], entries=names, table=[list(x) for x in table],
                                 rng=idx % 3, **extra)
+                    if item.get("names"):
+                        case["names"] = item["names"]
                     rows = build_rows([tuple(x) for x in table], extra["notation"],
                                       tuple(extra["double"]) if extra.get("double") else None, nb)
                     cls, outcome = run_table(prot, model, case, acc, work)
